@@ -8,7 +8,7 @@
 //! Enumerated space (see `layers`):
 //!   full     every sequence of ≤ k glyphs over the full per-glyph product
 //!            kind{E,S1,S2,Cp,Cn,Tp,Fp,Rp,K2} × lsb{−50,0,30} × advance{0,500,700}   (k = 2 quick, 3 thorough)
-//!   curated  every sequence of ≤ k glyphs over 11 (thorough 16) hand-picked (kind,lsb,advance) options (k = 4 / 5)
+//!   curated  every sequence of ≤ k glyphs over 11 (thorough 15) hand-picked (kind,lsb,advance) options (k = 4 / 5)
 //!   runs     every sequence of ≤ k glyphs over {E,S1} × advance{0,500,700}, with and without an own empty
 //!            zero-width .notdef, first or last in public.glyphOrder (k = 5 / 6) — trailing equal-advance runs
 //!   cmap     every subset of 7 codepoints × {ascending, descending, all on one glyph}
@@ -325,9 +325,7 @@ fn curated_options_quick() -> Vec<G> {
 }
 
 fn curated_options_thorough() -> Vec<G> {
-    let mut v = curated_options();
-    v.push(g(Kind::Rp, -50, 500));
-    v
+    curated_options()
 }
 
 struct FeaProg {
@@ -485,7 +483,7 @@ fn layers(tier: Tier) -> Vec<LayerDef> {
     v.push(seq_layer(
         "runs-own-notdef",
         run_opts.clone(),
-        tier.pick(4, 6),
+        tier.pick(4, 5),
         Case { own_notdef: true, ..Default::default() },
     ));
     v.push(seq_layer(
